@@ -1198,6 +1198,52 @@ def bad_corpus():
     return [{"kind": "bad", "type": T, "doc": dm(), "doc2": None, "env": None, "texts": t} for t in bad]
 
 
+# ---------------------------------------------------------------------------- constants read from the source
+
+def regen_constants():
+    """core/conf/config.go, internal/encoding/encoding.go of the checked tree -> coq/gen/C17Consts.v:
+    the table extension -> loader of conf.Load, the struct tag key, and the Go number types that
+    toStringKeyMap turns into json.Number (values only; entries are sorted, so re-ordering the source
+    changes nothing).  GenProofs.v proves that the model's fmt_of_ext IS this table etc."""
+    src = open(os.path.join(vlib.REPO, "core/conf/config.go")).read()
+    m = re.search(r"loaders\s*=\s*map\[string\]func\(\[\]byte,\s*any\)\s*error\s*\{(.*?)\n\t\}", src, re.S)
+    if not m:
+        raise RuntimeError("C17 translator: the loaders table was not found in core/conf/config.go")
+    loaders = sorted(re.findall(r'"([^"]*)"\s*:\s*(\w+)', m.group(1)))
+    if not loaders:
+        raise RuntimeError("C17 translator: the loaders table is empty")
+    m = re.search(r'\bjsonTagKey\s*=\s*"([^"]*)"', src)
+    if not m:
+        raise RuntimeError("C17 translator: jsonTagKey not found in core/conf/config.go")
+    tag = m.group(1)
+    esrc = open(os.path.join(vlib.REPO, "internal/encoding/encoding.go")).read()
+    m = re.search(r"\nfunc toStringKeyMap\(.*?\n}\n", esrc, re.S)
+    if not m:
+        raise RuntimeError("C17 translator: toStringKeyMap not found in internal/encoding/encoding.go")
+    kinds = []
+    for cm in re.finditer(r"\n\tcase ([^:]*):\n\t\treturn convertNumberToJsonNumber\(v\)", m.group(0)):
+        kinds += [x.strip() for x in cm.group(1).split(",")]
+    kinds = sorted(set(kinds))
+    text = "\n".join([
+        "(* GENERATED by tools/props/c17.py from core/conf/config.go and internal/encoding/encoding.go of the",
+        "   checked tree at every run - do not edit. *)",
+        "From Coq Require Import List String.",
+        "Import ListNotations.",
+        "Open Scope string_scope.",
+        "Definition gen_loaders : list (string * string) := %s." % clist(['("%s", "%s")' % (e, f) for e, f in loaders]),
+        "Definition gen_tag_key : string := \"%s\"." % tag,
+        "Definition gen_yaml_number_kinds : list string := %s." % clist(['"%s"' % k for k in kinds]), ""])
+    path = os.path.join(vlib.COQ, "gen", "C17Consts.v")
+    os.makedirs(os.path.dirname(path), exist_ok=True)
+    old = open(path).read() if os.path.exists(path) else None
+    if old != text:
+        tmp = path + ".tmp%d" % os.getpid()
+        with open(tmp, "w") as f:
+            f.write(text)
+        os.replace(tmp, path)
+    return loaders, tag, kinds, old != text
+
+
 # ---------------------------------------------------------------------------- the property
 
 class C17(Property):
@@ -1233,6 +1279,11 @@ class C17(Property):
     assumptions = ["float literals have <= 15 significant digits (exact decimal = float64 behaviour)",
                    "ASCII keys (strings.ToLower = ASCII lower)",
                    "no two keys of one object collide after lower-casing (Go map order would decide)"]
+
+    def regen(self, ctx):
+        loaders, tag, kinds, changed = regen_constants()
+        return ["C17Consts.v %s: loaders=%s tag=%s yaml-number-kinds=%d" %
+                ("rewritten" if changed else "unchanged", ",".join(e for e, _ in loaders), tag, len(kinds))]
 
     def prepare(self, ctx):
         ok, res = vlib.go_build("c17")
